@@ -172,7 +172,7 @@ class LinearForm(_Form):
             values_e = (values_e_pg * dX_e_pg).integrate()
 
             # add data
-            data[:, i] = values_e
+            data[:, i, 0] = np.reshape(values_e, groupElem.Ne)
 
         return data
 
